@@ -78,9 +78,10 @@ structure St where
   kv : KV                                         -- all client stores; newest binding first
   rel : List (String × (List Name × Nat))         -- relayers: address ↦ (chains, number of counterparty addresses)
   now : Nat                                       -- block time, ns
+  self : Name := ""                               -- this chain's own name (client keeper GetChainName)
   deriving Repr
 
-def init : St := { kv := [], rel := [], now := 0 }
+def init : St := { kv := [], rel := [], now := 0, self := "" }
 
 def lookup (key : Name × Key) : KV → Option Val
   | [] => none
@@ -209,7 +210,7 @@ def toggleClient (s : St) (n : Name) (c : CState) (k : KState) : Outcome St :=
   | some old =>
     if old.ty = c.ty then .err "type" else
     match initClient (set (clearName s n) n .cs (.cstate c)) n c k with
-    | .ok s2 => .ok (set s2 n (.cons c.latest) (.kstate k))
+    | .ok s2 => if k.ty ≠ .tss then .ok (set s2 n (.cons c.latest) (.kstate k)) else .ok s2   -- as CreateClient: none for TSS
     | .err e => .err e
     | .panic p => .panic p
 
@@ -217,6 +218,7 @@ def toggleClient (s : St) (n : Name) (c : CState) (k : KState) : Outcome St :=
 def handle (s : St) (p : Proposal) : Outcome St :=
   match p.kind with
   | .create =>
+    if p.name = s.self then .err "own-name" else
     if (getClient s p.name).isSome then .err "exists" else
     match p.cs, p.ks with
     | some c, some k => createClient s p.name c k
